@@ -121,9 +121,9 @@ def currentChoices (st : Story) : List Choice × Story :=
     let rec renumber : List Choice → Nat → List Choice
       | [], _ => []
       | c :: rest, n => if c.isInvisibleDefault then c :: renumber rest n else { c with index := n } :: renumber rest (n + 1)
-    let cs := renumber st.state.flow.choices 0
+    let cs := renumber st.core.flow.choices 0
     (cs.filter (fun c => !c.isInvisibleDefault),
-     { st with state := { st.state with flow := { st.state.flow with choices := cs } } })
+     st.mapCore (fun c => { c with flow := { c.flow with choices := cs } }))
 
 /-- `choose_choice_index(i)` -/
 def chooseChoiceIndex (st : Story) (i : Nat) : Out Unit × Story :=
@@ -138,7 +138,7 @@ def chooseChoiceIndex (st : Story) (i : Nat) : Out Unit × Story :=
       match c.thread with
       | none => (.panic "choices.rs:thread_at_generation", st1)
       | some th =>
-        let st2 := { st1 with state := st1.state.mapCallstack (fun cs => cs.setCurrentThread th) }
+        let st2 := st1.mapCore (fun c => c.mapCallstack (fun cs => cs.setCurrentThread th))
         st2.runM (choosePath st2.env c.targetPath true)
 
 /-- `StoryState::check_arguments` on already decoded arguments: `none` marks an unsupported kind. -/
@@ -165,9 +165,9 @@ def choosePathString (st : Story) (path : String) (resetCallStack : Bool) (args 
       | .panic p => (.panic p, st)
       | .ok _ =>
         let pre : Out Unit × Story :=
-          if resetCallStack then (.ok (), { st with state := st.state.forceEnd })
+          if resetCallStack then (.ok (), st.mapCore Core.forceEnd)
           else
-            match st.state.callstack.currentElement with
+            match st.core.callstack.currentElement with
             | some e =>
               if e.kind == .function then
                 (.invalid ("Story was running a function when you called ChoosePathString(" ++ path
@@ -196,13 +196,13 @@ def evaluateFunction (st : Story) (name : String) (args : List (Option Val)) :
       | .err k m => (.err k m, st)
       | .panic p => (.panic p, st)
       | .ok argv =>
-        let outputBefore := st.state.output
-        let s1 := st.state.resetOutput none
+        let outputBefore := st.core.output
+        let s1 := st.core.resetOutput none
         match s1.callstack.push .functionEvaluationFromGame s1.evalStack.length 0 with
         | none => (.panic "callstack.rs:push", st)
         | some cs =>
           let s2 := (s1.setCallstack cs).setCurrentPtr (Ptr.startOf [stp])
-          let st1 := { st with state := s2 }
+          let st1 := st.setCore s2
           match st1.passArguments argv with
           | (.err k m, st2) => (.err k m, st2)
           | (.panic p, st2) => (.panic p, st2)
@@ -219,23 +219,23 @@ def evaluateFunction (st : Story) (name : String) (args : List (Option Val)) :
             | (.err k m, st3) => (.err k m, st3)
             | (.panic p, st3) => (.panic p, st3)
             | (.ok text, st3) =>
-              let s3 := st3.state.resetOutput (some outputBefore)
+              let s3 := st3.core.resetOutput (some outputBefore)
               -- complete_function_evaluation_from_game
               match s3.callstack.currentElement with
               | none => (.panic "callstack.rs:get_current_element", st3)
               | some e =>
                 if e.kind != .functionEvaluationFromGame then
-                  (.invalid "Expected external function evaluation to be complete.", { st3 with state := s3 })
+                  (.invalid "Expected external function evaluation to be complete.", st3.setCore s3)
                 else
                   let h := e.evalHeightWhenPushed
                   let extra := s3.evalStack.length - h
                   let returned : Option Obj := if extra > 0 then s3.evalStack.head? else none
                   let s4 := { s3 with evalStack := s3.evalStack.drop extra }
                   match s4.callstack.pop (some .functionEvaluationFromGame) with
-                  | .err k m => (.err k m, { st3 with state := s4 })
-                  | .panic p => (.panic p, { st3 with state := s4 })
+                  | .err k m => (.err k m, st3.setCore s4)
+                  | .panic p => (.panic p, st3.setCore s4)
                   | .ok cs' =>
-                    let st4 := { st3 with state := s4.setCallstack cs' }
+                    let st4 := st3.setCore (s4.setCallstack cs')
                     let rv : Option Val := match returned with
                       | some (.val (.dtarget p)) => some (.str (String.ofList p.toText))
                       | some (.val v) => some v
@@ -249,12 +249,12 @@ def freshFlow (name : String) : Flow :=
 
 /-- `switch_flow_internal` -/
 def switchFlowInternal (s : StoryState) (name : String) : StoryState :=
-  if name == s.flow.name then s
+  if name == s.core.flow.name then s
   else
     let nf := s.namedFlows.getD []
     let next := (alGet nf name).getD (freshFlow name)
     let nf1 := alRemove nf name
-    { s with flow := next, namedFlows := some (alSet nf1 s.flow.name s.flow) }
+    { s with core := { s.core with flow := next }, namedFlows := some (alSet nf1 s.core.flow.name s.core.flow) }
 
 def switchFlow (st : Story) (name : String) : Out Unit × Story :=
   match st.ifAsyncWeCant "switch flow" with
@@ -275,26 +275,26 @@ def removeFlow (st : Story) (name : String) : Out Unit × Story :=
   | .ok () =>
     if name == defaultFlowName then (.badArg "Cannot destroy default flow", st)
     else
-      let s1 := if st.state.flow.name == name then switchToDefaultFlowInternal st.state else st.state
+      let s1 := if st.core.flow.name == name then switchToDefaultFlowInternal st.state else st.state
       (.ok (), { st with state := { s1 with namedFlows := s1.namedFlows.map (fun nf => alRemove nf name) } })
 
 /-! ### variables and observers -/
 
 def getVariableHost (st : Story) (name : String) : Option Val :=
-  match alGet st.state.globals name with
+  match st.core.vars.get name with
   | some v => some v
-  | none => alGet st.state.defaultGlobals name
+  | none => alGet st.core.defaultGlobals name
 
 def setVariable (st : Story) (name : String) (v : Val) : Out Unit × Story :=
   match st.ifAsyncWeCant "set a variable" with
   | .err k m => (.err k m, st)
   | .panic p => (.panic p, st)
   | .ok () =>
-    if !alHas st.state.defaultGlobals name then
+    if !alHas st.core.defaultGlobals name then
       (.badArg ("Cannot assign to a variable " ++ name ++ " that hasn't been declared in the story"), st)
     else
-      let (s1, notify) := st.state.setGlobal name v
-      let st1 := { st with state := s1 }
+      let (s1, notify) := st.core.setGlobal name v
+      let st1 := st.setCore s1
       if notify then (.ok (), { st1 with events := (obsEvents st1 [(name, v)]).reverse ++ st1.events })
       else (.ok (), st1)
 
@@ -303,7 +303,7 @@ def observeVariable (st : Story) (name id : String) : Out Unit × Story :=
   | .err k m => (.err k m, st)
   | .panic p => (.panic p, st)
   | .ok () =>
-    if !st.state.globalExists name then
+    if !st.core.globalExists name then
       (.badArg ("Cannot observe variable '" ++ name ++ "' because it wasn't declared in the ink story."), st)
     else
       let cur := (alGet st.observers name).getD []
@@ -344,11 +344,11 @@ def visitCountAtPathString (st : Story) (path : String) : Out Int :=
   if st.state.patching then
     let sr := contentAtPath st.root [] (Path.parse path.toList).comps
     if !isContainerAt st.root sr.addr then .invalid ("Content at path not found: " ++ path)
-    else .ok ((alGet st.state.visitCounts path).getD 0)
-  else .ok ((alGet st.state.visitCounts path).getD 0)
+    else .ok ((alGet st.core.visitCounts path).getD 0)
+  else .ok ((alGet st.core.visitCounts path).getD 0)
 
 def currentPath (st : Story) : Option (Option String) :=
-  match st.state.currentPtr.path st.root with
+  match st.core.currentPtr.path st.root with
   | some (some p) => some (some (String.ofList p.toText))
   | some none => some none
   | none => none
@@ -389,19 +389,19 @@ def tagsAtPath (st : Story) (path : String) : Out (List String) :=
 def resetGlobals (st : Story) : Out Unit × Story :=
   let r : Out Unit × Story :=
     if (st.root.lookupName "global decl").isSome then
-      let original := st.state.currentPtr
+      let original := st.core.currentPtr
       match st.runM (choosePath st.env (Path.parse "global decl".toList) false) with
       | (.ok (), st1) =>
         match st1.continueInternal none callFuel with
-        | (.ok (), st2) => (.ok (), { st2 with state := st2.state.setCurrentPtr original })
+        | (.ok (), st2) => (.ok (), st2.mapCore (fun c => c.setCurrentPtr original))
         | other => other
       | other => other
     else (.ok (), st)
   match r with
   | (.ok (), st1) =>
     -- snapshot_default_globals
-    let defaults := st1.state.globals.foldl (fun acc kv => alSet acc kv.1 kv.2) st1.state.defaultGlobals
-    (.ok (), { st1 with state := { st1.state with defaultGlobals := defaults } })
+    let defaults := st1.core.vars.globals.foldl (fun acc kv => alSet acc kv.1 kv.2) st1.core.defaultGlobals
+    (.ok (), st1.mapCore (fun c => { c with defaultGlobals := defaults }))
   | other => other
 
 def inkVersionWarning (version : Int) : String :=
